@@ -80,7 +80,7 @@ Section Db.
   Definition key_side_ok (lw rw : nat) (c : nat * nat * bool) : bool :=
     match c with
     | (O, i, _) => match key_idx lw rw c with Some j => (j =? lw + i)%nat | None => false end
-    | (S O, i, _) => match key_idx lw rw c with Some j => (j =? i)%nat | None => false end
+    | (S O, i, _) => (i <? lw)%nat && match key_idx lw rw c with Some j => (j =? i)%nat | None => false end
     | _ => false
     end.
   (* every conjunct of the condition is a usable key: column = column pairing an outer with an
